@@ -30,6 +30,9 @@ pub struct Ctx {
     pub seed: u64,
     pub threads: usize,
     pub verif_dir: String,
+    /// where evidence/ and replays/ are written (VERIF_OUT_DIR; default: verif_dir).  Trials against seeded changes
+    /// write elsewhere so that the committed evidence always comes from the unchanged tree.
+    pub out_dir: String,
     /// scale factor for random workloads (VERIF_SCALE, default 1.0)
     pub scale: f64,
     pub start: Instant,
@@ -393,7 +396,7 @@ pub fn finish(ctx: &Ctx, mut rep: Report, rule: &str, assumptions: &[&str], extr
     }
     // replay files
     let mut exit_code = 0;
-    let replay_dir = format!("{}/replays/{}", ctx.verif_dir, ctx.prop);
+    let replay_dir = format!("{}/replays/{}", ctx.out_dir, ctx.prop);
     if !rep.violations.is_empty() {
         let _ = std::fs::create_dir_all(&replay_dir);
     }
@@ -467,8 +470,8 @@ pub fn finish(ctx: &Ctx, mut rep: Report, rule: &str, assumptions: &[&str], extr
         ("wall_s".into(), J::Num((wall * 100.0).round() / 100.0)),
         ("violations".into(), J::Int(rep.violation_total as i64)),
     ]);
-    let _ = std::fs::create_dir_all(format!("{}/evidence", ctx.verif_dir));
-    let path = format!("{}/evidence/{}.json", ctx.verif_dir, ctx.prop);
+    let _ = std::fs::create_dir_all(format!("{}/evidence", ctx.out_dir));
+    let path = format!("{}/evidence/{}.json", ctx.out_dir, ctx.prop);
     if let Err(e) = std::fs::write(&path, ev.to_pretty()) {
         eprintln!("ERROR cannot write evidence {}: {}", path, e);
         return Outcome { exit_code: 2 };
